@@ -128,6 +128,16 @@ Inductive json :=
 | JArr (xs : list json) | JObj (kvs : list (name * json))
 | JMeta.                                 (* the (uninterpreted) value of __schema / __type *)
 
+(** every Float in a response value is finite (so the value has a JSON form) *)
+Fixpoint json_finite (j : json) : bool :=
+  match j with
+  | JFloat (Fin _ _) => true
+  | JFloat _ => false
+  | JArr xs => forallb json_finite xs
+  | JObj kvs => forallb (fun kv => json_finite (snd kv)) kvs
+  | _ => true
+  end.
+
 Inductive pathc := PKey (k : name) | PIdx (i : N).
 Definition rpath := list pathc.
 Record gerror := { e_path : rpath; e_locs : list pos }.
@@ -167,6 +177,20 @@ Definition dy_to_int32 (d : dyadic) : option Z :=
           let v := Z.shiftr m k in if in_int32 v then Some v else None
         else None
   | _ => None
+  end.
+
+(** the range of each Go integer type *)
+Definition ikind_range (k : ikind) : Z * Z :=
+  match k with
+  | I8 => (-128, 127) | U8 => (0, 255) | I16 => (-32768, 32767) | U16 => (0, 65535)
+  | I32 => (min_int32, max_int32) | U32 => (0, 4294967295)
+  | I64 | IInt => (-9223372036854775808, max_int64)
+  | U64 | IUint => (0, 18446744073709551615)
+  end%Z.
+Definition gval_wf (g : gval) : Prop :=
+  match g with
+  | GInt k z => (fst (ikind_range k) <= z <= snd (ikind_range k))%Z
+  | _ => True
   end.
 
 (** coerceInt *)
